@@ -16,7 +16,7 @@ HFILES = ["common/common_test.go.tmpl", "flood/flood_net_test.go"]
 # must make the check report a violation, whatever the property)
 SELFTEST = os.environ.get("VERIF_SELFTEST", "")
 INVS = ("TypeOK ProcessedOnce ForwardedOnce MsgBound PathsSimple ChainsSimple PathsValid Converged MetricIsHops "
-        "NearestPreferred Refreshed HopLimit PathIsDistance CountFits DecodedIntact")
+        "NearestPreferred Refreshed HopLimit PathIsDistance CountFits DecodedIntact Resynced")
 
 # deviation -> (property it breaks, invariant expected to catch it)
 DEV_OWNER = {
@@ -28,6 +28,7 @@ DEV_OWNER = {
     "DevForwardLooped": "C11",
     "DevNoPathPrepend": "C12",
     "DevPathCountWrap": "C15",
+    "DevSeenBlocksResync": "C12",
 }
 
 A2, A3, A4 = ["a", "b"], ["a", "b", "c"], ["a", "b", "c", "d"]
@@ -129,6 +130,8 @@ def dev_cfg(d):
                     exits=[[]], routeids=[], announcers=["a"], conn=2)
     if d == "DevNoPathPrepend":
         return base("dev", A3, l3, announcers=["a"])
+    if d == "DevSeenBlocksResync":
+        return base("dev", A3, l3, announcers=["a"], conn=1, disc=1)
     if d == "DevPathCountWrap":
         return base("dev", A4, L(("a", "b"), ("b", "c"), ("c", "d")), announcers=["a"], listmod=3, hopsset=[2])
     raise KeyError(d)
@@ -234,9 +237,9 @@ TRACE_CFG = dict(name="trace", agents=["a", "b", "c", "d", "e", "f"],
                  announcers=["a", "b", "c", "d", "e", "f"], maxann=10 ** 9, hopsset=[16], cntmod=256,
                  conn=10 ** 9, disc=10 ** 9, exp=10 ** 9, dup=10 ** 9, age=10 ** 9)
 TRACE_INVS = ("ProcessedOnce ForwardedOnce MsgBound PathsSimple ChainsSimple PathsValid Converged MetricIsHops "
-              "NearestPreferred Refreshed HopLimit PathIsDistance CountFits DecodedIntact")
+              "NearestPreferred Refreshed HopLimit PathIsDistance CountFits DecodedIntact Resynced")
 DEVS_REAL = ["DevForwardKeepsReceivedMetric", "DevReplayUsesOwnSequence", "DevNoHopCheck", "DevCount8Wrap",
-             "DevForwardLooped", "DevPathCountWrap"]
+             "DevForwardLooped", "DevPathCountWrap", "DevSeenBlocksResync"]
 
 
 def _validate(ctx, tracefile, name, invs, dev, tcfg=None):
@@ -330,6 +333,8 @@ def classify(mm):
             return "DevForwardLooped", "HandleRouteAdvertise"
         if sp == "seen" and re in ("new", "dropped"):
             return "DevNoSeenMark", "HandleRouteAdvertise"
+        if sp == "new" and re == "seen":
+            return "DevSeenBlocksResync", "HandleRouteAdvertise"
         return None, "HandleRouteAdvertise:res:%s:%s" % (sp, re)
     if f == "ctr":
         if act == "Replay":
@@ -338,6 +343,8 @@ def classify(mm):
             return "DevCount8Wrap", "AnnounceLocalRoutes"
         return None, act + ":ctr"
     if f == "seen":
+        if act == "PeerGone" and mm.get("real_only") and not mm.get("spec_only"):
+            return "DevSeenBlocksResync", "handlePeerDisconnect"
         return ("DevNoSeenMark" if mm.get("spec_only") else None), act + ":seen"
     if f in ("tbl", "net"):
         sp = mm.get("spec_entries") or mm.get("spec_msgs") or []
@@ -437,7 +444,7 @@ def report(ctx, pid, rep=None, trs=(), scale=None):
 def explains_pred(p):
     k = p["kind"]
     return {"metric-not-hops": "DevForwardKeepsReceivedMetric", "farther-exit-preferred": "DevForwardKeepsReceivedMetric",
-            "not-refreshed": "DevReplayUsesOwnSequence", "stored-beyond-limit": "DevNoHopCheck",
+            "not-refreshed": "DevReplayUsesOwnSequence", "not-resynced": "DevSeenBlocksResync", "stored-beyond-limit": "DevNoHopCheck",
             "forwarded-beyond-limit": "DevNoHopCheck", "path-not-simple": "DevForwardLooped",
             "undecodable": "DevCount8Wrap", "send-failed": "DevOversizeDropped"}.get(k, "direct") if not (
         k == "stored-beyond-limit" and "distance" in p and not p.get("entry", {}).get("path")) else "DevPathCountWrap"
